@@ -37,10 +37,7 @@ STEPS = {1: [10, 18, 20], 2: [10, 18, 19], 6: [4, 10, 11]}
 
 
 def _call(fn, *a, **k):
-    try:
-        return fn(*a, **k)
-    except Exception as e:  # an exception is never equal to a spec value
-        return 'raise:' + type(e).__name__
+    return core.guarded(fn, *a, **k)
 
 
 def _vec(out, col=0):
